@@ -282,7 +282,10 @@ class Parser(AttrParser):
                 self.raise_error(
                     "Expected integer as SSA value tuple index", index_token.span
                 )
-            index = int(index_token.text[1:], 10)
+            try:
+                index = int(index_token.text[1:], 10)
+            except ValueError:
+                self.raise_error("SSA value tuple index is too large", index_token.span)
 
         return UnresolvedOperand(name_token.span, index)
 
